@@ -425,9 +425,14 @@ def extractor_level(ctx, cfgs):
                                               'select-candidates-misaligned.diff not applied): %r -> %r' % (
                                                   uxrec.PROBE_SELECT, variant['probe']))
     if not variant['lockstep']:
-        ctx.notes.append('observation outside the property\'s quantifier (select-candidates-misaligned): %r makes '
-                         '_select_candidates raise IndexError, recognize_currency returns []; the model follows this variant '
-                         '(select_misaligned_raises)' % uxrec.PROBE_SELECT)
+        # fixed in /repo by e3a14a2db: seeing the old variant again is a regression (outside the property's own quantifier,
+        # hence no property_fails; the model keeps following the tree so that everything else is still compared)
+        ctx.report('correspondence', 'select-candidates-misaligned',
+                   '%r: _select_candidates raises IndexError (unit_is_prefix is not filtered with the results), '
+                   'recognize_currency returns []; theorem extractPre_lockstep_returns no longer describes the code' % uxrec.PROBE_SELECT,
+                   failing_input={'op': 'NumberWithUnitExtractor.extract', 'model_type': 'CurrencyModel', 'culture': 'en-us',
+                                  'source': uxrec.PROBE_SELECT, 'observed': variant['probe'], 'expected': [(18, 9, '7 dollars')]},
+                   property_fails=False)
     chunks = [({'lockstep': variant['lockstep']}, tasks[i::64]) for i in range(64)]
     with mp.Pool(min(16, os.cpu_count() or 4)) as pool_:
         results = pool_.map(uxrec.run_chunk, chunks)
